@@ -624,6 +624,11 @@ type ValScript struct {
 	Stop       string         `json:"stop,omitempty"`
 	Cursor     string         `json:"cursor,omitempty"`
 	MaxTokens  int64          `json:"max_tokens,omitempty"`
+	// Ask (CallToolResult, GetPromptResult, ReadResourceResult): the result asks the client for input instead of
+	// carrying content: "empty" (a non-nil map without entries: "busy, try again"), "roots", "two" (an
+	// elicitation and a roots request); State is the request state it carries.
+	Ask   string `json:"ask,omitempty"`
+	State string `json:"state,omitempty"`
 }
 
 var valueKinds = []string{
@@ -643,12 +648,25 @@ func genItems(rt *rapid.T, n int) []ItemModel {
 }
 
 func genVal(rt *rapid.T) ValScript {
-	return genValOf(rt, rapid.SampledFrom(valueKinds).Draw(rt, "kind"))
+	kind := rapid.SampledFrom(valueKinds).Draw(rt, "kind")
+	if (kind == "CallToolResult" || kind == "GetPromptResult" || kind == "ReadResourceResult") && rapid.IntRange(0, 3).Draw(rt, "asks") == 0 {
+		// a result that asks for input carries no content (only the value round trip uses these: a served
+		// handler returning one sets the multi-round-trip machinery in motion, which is C16's arrangement)
+		s := ValScript{Kind: kind, Meta: genMeta(rt, "meta"), NilList: rapid.Bool().Draw(rt, "nil_list")}
+		s.Ask = rapid.SampledFrom([]string{"empty", "empty", "roots", "two"}).Draw(rt, "ask")
+		s.State = rapid.SampledFrom([]string{"", "st-1", "\u00e9\"x"}).Draw(rt, "state")
+		if kind == "GetPromptResult" {
+			s.Text = genString(rt, "description")
+		}
+		return s
+	}
+	return genValOf(rt, kind)
 }
 
 func genValOf(rt *rapid.T, kind string) ValScript {
 	s := ValScript{Kind: kind, Meta: genMeta(rt, "meta")}
 	n := rapid.IntRange(0, 3).Draw(rt, "n")
+
 	nilOK := true
 	kinds := basicKinds
 	switch s.Kind {
@@ -709,7 +727,35 @@ func genValOf(rt *rapid.T, kind string) ValScript {
 func (it ItemModel) meta() mcp.Meta { return mcp.Meta(jsonObj(it.Meta)) }
 
 // build returns the SDK value and a fresh zero value of the same type to unmarshal into.
+// askMap is the input request map of a result that asks for input (nil when it does not).
+func (s ValScript) askMap() mcp.InputRequestMap {
+	switch s.Ask {
+	case "empty":
+		return mcp.InputRequestMap{}
+	case "roots":
+		return mcp.InputRequestMap{"r": &mcp.ListRootsParams{}}
+	case "two":
+		return mcp.InputRequestMap{"e": &mcp.ElicitParams{Mode: "form", Message: "m", RequestedSchema: map[string]any{"type": "object"}}, "r": &mcp.ListRootsParams{}}
+	}
+	return nil
+}
+
 func (s ValScript) build() (v any, zero func() any) {
+	v, zero = s.build0()
+	if s.Ask != "" {
+		switch r := v.(type) {
+		case *mcp.CallToolResult:
+			r.InputRequests, r.RequestState = s.askMap(), s.State
+		case *mcp.GetPromptResult:
+			r.InputRequests, r.RequestState = s.askMap(), s.State
+		case *mcp.ReadResourceResult:
+			r.InputRequests, r.RequestState = s.askMap(), s.State
+		}
+	}
+	return v, zero
+}
+
+func (s ValScript) build0() (v any, zero func() any) {
 	meta := mcp.Meta(jsonObj(s.Meta))
 	switch s.Kind {
 	case "CallToolResult":
@@ -824,6 +870,33 @@ func (s ValScript) checkJSON(k *jsonChecker, raw json.RawMessage, nilOK bool) {
 		return
 	}
 	k.jsonIs("$", m, "_meta", s.Meta, true)
+	if s.Ask != "" {
+		// the input requests are on the wire exactly as asked: an empty map is an empty object, not an absent member
+		ir, ok := m["inputRequests"]
+		if !ok {
+			k.failf("$: the result asks for input (%s) but has no inputRequests member", s.Ask)
+		} else if im, err := members(ir); err != nil {
+			k.failf("$.inputRequests: not an object: %s", ir)
+		} else if want := map[string]int{"empty": 0, "roots": 1, "two": 2}[s.Ask]; len(im) != want {
+			k.failf("$.inputRequests has %d entries, want %d: %s", len(im), want, ir)
+		} else {
+			for id, wantMethod := range map[string]string{"r": "roots/list", "e": "elicitation/create"} {
+				if e, ok := im[id]; ok {
+					em, _ := members(e)
+					var method string
+					json.Unmarshal(em["method"], &method)
+					if method != wantMethod {
+						k.failf("$.inputRequests.%s.method is %s, want %q", id, em["method"], wantMethod)
+					}
+				}
+			}
+		}
+		if s.State != "" {
+			k.str("$", m, "requestState", s.State)
+		}
+	} else if _, ok := m["inputRequests"]; ok {
+		k.failf("$: a result that asks for nothing has an inputRequests member")
+	}
 	switch s.Kind {
 	case "CallToolResult":
 		if arr := k.list("$", m, "content", len(s.Contents), nilOK); arr != nil {
@@ -936,6 +1009,9 @@ func runVal(s ValScript) (res vt.Result) {
 	sj, _ := json.Marshal(s)
 	res.Desc = string(sj)
 	res.Class("kind:"+s.Kind, fmt.Sprintf("content-depth:%d", depth))
+	if s.Ask != "" {
+		res.Class("result_asks_for_input_" + s.Ask)
+	}
 	if s.NilList {
 		res.Class("nil-slice")
 	} else if len(s.Contents)+len(s.Items)+len(s.Resources)+len(s.PerMessage) == 0 {
@@ -969,6 +1045,22 @@ func runVal(s ValScript) (res vt.Result) {
 		if d := deepEq(reflect.ValueOf(v), reflect.ValueOf(v2), s.Kind); d != "" {
 			res.Failf("marshal -> %s does not yield an equal %s: %s\n json: %s", dec.name, s.Kind, d, b1)
 			return
+		}
+		if s.Ask != "" {
+			// "no input requests" (nil) and "an empty set of them" (busy) are different answers
+			var got mcp.InputRequestMap
+			switch r := v2.(type) {
+			case *mcp.CallToolResult:
+				got = r.InputRequests
+			case *mcp.GetPromptResult:
+				got = r.InputRequests
+			case *mcp.ReadResourceResult:
+				got = r.InputRequests
+			}
+			if got == nil {
+				res.Failf("marshal -> %s of a %s that asks for input (%s) yields a result without input requests\n json: %s", dec.name, s.Kind, s.Ask, b1)
+				return
+			}
 		}
 		b2, err := json.Marshal(v2)
 		if err != nil {
